@@ -140,6 +140,10 @@ func init() {
 		e.poolAssume(fr, st, args[0], v)
 		return v
 	}
+	modelEffects["(*sync.Pool).Get"] = func(e *Exec, cc *ssa.CallCommon) []string {
+		return []string{"G_alloc", e.boxHeap(types.NewSlice(types.Typ[types.Byte]))}
+	}
+	modelEffects["(*sync.Pool).Put"] = func(e *Exec, cc *ssa.CallCommon) []string { return nil }
 	models["(*sync.Pool).Put"] = func(e *Exec, fr *Frame, st *State, args []Val, cc *ssa.CallCommon, pos token.Pos) Val {
 		e.poolCheck(fr, st, args[0], args[1], pos)
 		return Val{T: "0"}
